@@ -37,6 +37,19 @@ CLAIMED["C18"] = dict(
    technique="contract-based deductive verification (function contracts, loop invariant, ghost input/output streams, ghost lock flag); bounded search on the real stream as replay",
    design="5.C18")
 
+CLAIMED["C10"] = dict(
+   level="proof",
+   text="No-swallowed-error / append-only contracts on every layer of rendering. Ghost state: bytes accepted by each writer, pending bytes and sticky error of bufio writers, and a flag failedDuring set whenever any callee (writer, flush, nested component, expression, context) reports an error. (1) runtime.Buffer.{Reset,Write,WriteString,Flush}, runtime.GetBuffer (reuse or reset-on-acquisition of the pooled buffer), runtime.ReleaseBuffer (flush error is the result), runtime.WriteString; (2) the interface contract of Component.Render (result nil iff nothing failed; output append-only) proved for Join, Raw, Flush, Once, ComponentScript, JSONScriptElement, writeStrings, writeScriptHeader, ToGoHTML; (3) the generated-code contract (contracts/generated.contract) proved for every closure passed to GeneratedTemplate in a corpus regenerated on each run with the current parser+generator (all generator/test-* templates plus /verif/corpus), in two variants (arbitrary writer / *runtime.Buffer): result nil implies no callee failed, a non-nil result implies a failure, output of the writer only grows, a cancelled context returns ctx.Err() before any output. All fault points and writers are symbolic (no bound); programs are bounded by the corpus.",
+   note="govc + solvers; assumed: io.Writer contract (accepts a prefix; all iff nil error), bufio.Writer contract, sync.Pool, interface contract of Render for user components, SanitizeStyleAttributeValues error propagation (trusted), user expressions deterministic and free of effects on the writer; the prefix order is abstracted to an uninterpreted order with its axioms for the long write chains of generated code; exactness of the document (what should be written) is C02 and not claimed",
+   technique="contract-based deductive verification: ghost writer state, interface contracts, generated-code contract applied to a regenerated corpus, running invariants; obligations discharged by z3-new (batched) / z3 / cvc5",
+   design="5.C10")
+CLAIMED["C13"] = dict(
+   level="proof",
+   text="Children-slot protocol contract: the slot lives in the per-render context value; WithChildren installs exactly the block, ClearChildren empties it, GetChildren returns it; at every component call without a block in generated code the obligation 'slot is empty' must hold, every generated template leaves the slot empty on success, child-block closures require an empty slot on entry, hand-written wrappers (Flush, Once) must hand their children an empty slot. Proved over the regenerated corpus (including /verif/corpus/children-shapes, which contains every call shape the property names). The check reports two genuine defects as KNOWN-FINDINGs (a callee that ignores its block leaves it in the slot for the next sibling; Once renders its children with the slot still set) and one defect was repaired (Flush).",
+   note="govc + solvers; one render = one shared context value (getContext/InitializeContext trusted); Component.Render interface contract for components not under contract (may clear the slot, never install one); programs bounded by the corpus; 'rendered where the callee places its slot / evaluated in the caller's scope' is C02 territory and not claimed",
+   technique="contract-based deductive verification with ghost slot state and call-site obligations on regenerated code; replay by rendering the corpus templates with the real generated code and runtime",
+   design="5.C13")
+
 NA = {
  "C02": "compiler correctness: needs a formal semantics of templ and of the emitted Go subset; no per-function contract can state 'denotes' without restating the generator (locally expressible parts are claimed under C01/C03/C04/C10/C16/C07)",
  "C08": "whole-formatter semantic preservation needs the same two semantics plus go/format; not expressible as function contracts",
